@@ -61,6 +61,8 @@ type rlEvent struct {
 	Ev   string `json:"ev"`
 	M    int    `json:"m,omitempty"`
 	D    int    `json:"d,omitempty"`
+	K    string `json:"k,omitempty"`  // Fail: down | lost | hang
+	Sh   string `json:"sh,omitempty"` // Accept: how the relay's code reads the answer (A | R)
 	Info string `json:"info,omitempty"`
 }
 
@@ -81,12 +83,16 @@ type rlResult struct {
 	Accepts      int        `json:"accepts"`
 	Refusals     int        `json:"refusals"`
 	GaveUp       int        `json:"fin_without_accept"`
+	shape        []rlEvent
+	unknown      int
+	timeouts     int
 }
 
 type rlReport struct {
 	Scenarios    int                      `json:"scenarios"`
 	Traces       int                      `json:"traces"`
 	FilterTraces int                      `json:"filter_traces"`
+	ShapeTraces  int                      `json:"shape_traces"`
 	Events       int                      `json:"events"`
 	Distinct     int                      `json:"distinct_nontrivial"`
 	Results      []rlResult               `json:"results"`
@@ -100,6 +106,7 @@ type scen struct {
 	sc      rlScenario
 	mu      sync.Mutex
 	evs     []rlEvent
+	sevs    []rlEvent // the same run as RelayShapeTrace.tla wants it (answers at the moment the item is taken)
 	bodies  [][]byte
 	bodyIdx map[string]int // body -> m (1-based)
 	idToM   map[string]int
@@ -127,6 +134,25 @@ type scen struct {
 func (s *scen) log(e rlEvent) {
 	s.evs = append(s.evs, e)
 	s.lastEv = time.Now()
+	switch e.Ev {
+	case "Deliver", "Fin", "Req", "End", "Fail", "Lost", "Down":
+		if e.Ev != "Fail" || e.K != "hang" {
+			s.sevs = append(s.sevs, e)
+		}
+	}
+}
+
+// shapeTake logs, for RelayShapeTrace.tla, the moment a destination takes its next schedule item for a request
+// (the property-level Accept / Refuse events are logged later, just before the answer is written).
+func (s *scen) shapeTake(d, m int, item string) {
+	switch {
+	case item[0] == 'A':
+		s.sevs = append(s.sevs, rlEvent{Ev: "Accept", M: m, D: d, Sh: shapeLetter(&s.sc, item)})
+	case item[0] == 'R':
+		s.sevs = append(s.sevs, rlEvent{Ev: "Refuse", M: m, D: d})
+	case item == "L:hang":
+		s.sevs = append(s.sevs, rlEvent{Ev: "Fail", M: m, D: d, K: "hang"})
+	}
 }
 
 func (s *scen) addCloser(c io.Closer) {
@@ -167,8 +193,17 @@ func (s *scen) onAcceptLocked(d, m int, how string) {
 	if m > 0 {
 		s.accs[m]++
 		s.accSet[m][d] = true
-		s.log(rlEvent{Ev: "Accept", M: m, D: d, Info: how})
+		s.log(rlEvent{Ev: "Accept", M: m, D: d, Sh: shapeLetter(&s.sc, how), Info: how})
 	}
+}
+
+// shapeLetter: the schedule letter as the relay's code will read the concrete item (the GET publisher takes
+// only 200 for success; the property counts any 2xx as an acceptance).
+func shapeLetter(sc *rlScenario, item string) string {
+	if sc.Tool == "nsq_to_http" && sc.Method == "get" && (strings.HasPrefix(item, "A:201") || strings.HasPrefix(item, "A:204")) {
+		return "R"
+	}
+	return item[:1]
 }
 func (s *scen) onRefuseLocked(d, m int, how string) {
 	if m > 0 {
@@ -294,7 +329,7 @@ func (s *scen) fakeNsqd(ln net.Listener, d int) {
 			// only the relay's producer connects here, and only from PublishAsync: that call fails
 			s.consume(d)
 			s.ifail++
-			s.log(rlEvent{Ev: "Fail", D: d, Info: "D:down connection closed at accept"})
+			s.log(rlEvent{Ev: "Fail", D: d, K: "down", Info: "D:down connection closed at accept"})
 		}
 		s.mu.Unlock()
 		if down {
@@ -350,7 +385,7 @@ func (s *scen) fakeNsqdConn(c net.Conn, d int) {
 			if item[0] == 'L' || item[0] == 'D' {
 				// the PUB whose command line was just read is outstanding at the relay's producer and now fails
 				s.ifail++
-				s.log(rlEvent{Ev: "Fail", D: d, Info: item + ": connection closed before the body was read"})
+				s.log(rlEvent{Ev: "Fail", D: d, K: "lost", Info: item + ": connection closed before the body was read"})
 				s.mu.Unlock()
 				return
 			}
@@ -361,6 +396,7 @@ func (s *scen) fakeNsqdConn(c net.Conn, d int) {
 			}
 			s.mu.Lock()
 			m := s.onRequestLocked(d, body)
+			s.shapeTake(d, m, item)
 			if len(f) < 2 || f[1] != s.destTopic() {
 				s.drift = append(s.drift, fmt.Sprintf("PUB to topic %q, expected %q", strings.Join(f[1:], " "), s.destTopic()))
 			}
@@ -463,6 +499,7 @@ func (s *scen) httpHandler(d int) http.Handler {
 		item := s.peek(d)
 		s.consume(d)
 		m := s.onRequestLocked(d, body)
+		s.shapeTake(d, m, item)
 		if r.Method != wantMethod {
 			s.drift = append(s.drift, "unexpected HTTP method "+r.Method)
 		}
@@ -510,7 +547,7 @@ func (s *scen) httpHandler(d int) http.Handler {
 		case item == "L:hang":
 			s.mu.Lock()
 			s.ifail++
-			s.log(rlEvent{Ev: "Fail", D: d, Info: item + ": no answer until the client gives up"})
+			s.log(rlEvent{Ev: "Fail", D: d, M: m, K: "hang", Info: item + ": no answer until the client gives up"})
 			s.mu.Unlock()
 			select {
 			case <-r.Context().Done():
@@ -643,13 +680,17 @@ func runScenario(job *rlJob, sc rlScenario, src *nsqd.NSQD) rlResult {
 		s.sched[d] = append([]string{}, s.conc[d]...)
 	}
 	res.Concrete = s.conc
-	defer func() {
-		close(s.stop)
+	closeAll := func() {
 		s.cmu.Lock()
 		for _, c := range s.closers {
 			c.Close()
 		}
+		s.closers = nil
 		s.cmu.Unlock()
+	}
+	defer func() {
+		close(s.stop)
+		closeAll()
 	}()
 
 	topicName := s.destTopic()
@@ -657,7 +698,14 @@ func runScenario(job *rlJob, sc rlScenario, src *nsqd.NSQD) rlResult {
 	topic := src.GetTopic(topicName)
 	ch := topic.GetChannel(channel)
 	_ = ch
-	defer src.DeleteExistingTopic(topicName)
+	defer func() {
+		// (runs after the tool has been stopped) drop the proxy connections, let nsqd finish with the client,
+		// only then delete the topic: a FIN still in the pipe while the channel is emptied would hit nsqd's
+		// FIN-vs-Empty race, which is not this property's business
+		closeAll()
+		waitNoClients(src, topicName, channel)
+		src.DeleteExistingTopic(topicName)
+	}()
 	for _, b := range s.bodies {
 		if err := topic.PutMessage(nsqd.NewMessage(topic.GenerateID(), b)); err != nil {
 			res.Inconclusive = "publishing to the source failed: " + err.Error()
@@ -797,6 +845,7 @@ func runScenario(job *rlJob, sc rlScenario, src *nsqd.NSQD) rlResult {
 					} else {
 						res.Quiescence = "settled"
 					}
+					res.timeouts = int(c2.TimeoutCount)
 					s.log(rlEvent{Ev: "End", Info: res.Quiescence})
 				}
 			}
@@ -809,6 +858,8 @@ func runScenario(job *rlJob, sc rlScenario, src *nsqd.NSQD) rlResult {
 	s.mu.Lock()
 	defer s.mu.Unlock()
 	res.Events = append([]rlEvent{}, s.evs...)
+	res.shape = append([]rlEvent{}, s.sevs...)
+	res.unknown = s.unknown
 	res.Stderr = tail(stderr.String(), 1500)
 	res.WallMs = time.Since(t0).Milliseconds()
 	for m := 1; m <= K; m++ {
@@ -883,6 +934,7 @@ func relayRun(args []string) int {
 	repPath := fs.String("report", "report.json", "report")
 	tracePath := fs.String("trace", "trace.ndjson", "trace for RelayTrace.tla (no filter)")
 	ftracePath := fs.String("ftrace", "ftrace.ndjson", "trace for RelayTrace.tla with Filter = TRUE")
+	stracePath := fs.String("strace", "strace.ndjson", "trace for RelayShapeTrace.tla")
 	fs.Parse(args)
 	var job rlJob
 	jb, err := os.ReadFile(*jobPath)
@@ -942,6 +994,11 @@ func relayRun(args []string) int {
 		fmt.Fprintln(os.Stderr, err)
 		return 2
 	}
+	sw, err := hlib.NewNDJSON(*stracePath)
+	if err != nil {
+		fmt.Fprintln(os.Stderr, err)
+		return 2
+	}
 	distinct := map[string]bool{}
 	for i := range results {
 		r := &results[i]
@@ -967,6 +1024,19 @@ func relayRun(args []string) int {
 				w.Put(map[string]interface{}{"ev": e.Ev, "m": e.M, "d": e.D, "info": e.Info})
 			}
 		}
+		if r.Scenario.Filter == "" && r.Quiescence != "none" && r.unknown == 0 {
+			rep.ShapeTraces++
+			sched := [][]string{{}, {}}
+			for d, row := range r.Concrete {
+				for _, it := range row {
+					sched[d] = append(sched[d], shapeLetter(&r.Scenario, it))
+				}
+			}
+			sw.Put(map[string]interface{}{"ev": "Reset", "m": 0, "d": 0, "k": "", "sh": "", "n": r.Scenario.NMsgs, "sched": sched, "to": r.timeouts, "info": r.ID})
+			for _, e := range r.shape {
+				sw.Put(map[string]interface{}{"ev": e.Ev, "m": e.M, "d": e.D, "k": e.K, "sh": e.Sh})
+			}
+		}
 		kinds := map[string]bool{}
 		for _, row := range r.Concrete {
 			for _, it := range row {
@@ -988,6 +1058,7 @@ func relayRun(args []string) int {
 	}
 	tw.Close()
 	fw.Close()
+	sw.Close()
 	rep.Distinct = len(distinct)
 	// keep the report small: drop the event lists of clean scenarios
 	for i := range results {
